@@ -102,17 +102,23 @@ Inductive res := Ok | ENotFound | EExists | EHang.
    were never stored; skipLinked: a rejected *variant* of Delete that queues a referrer only
    when all its predecessors are already queued (see C09_delete_skip_linked_refuted);
    fixHold: Delete queues a referrer of a deleted manifest only once no surviving node lists
-   it any more (predecessors that are referrers of its own do not hold it). *)
+   it any more (predecessors that are referrers of its own do not hold it);
+   fixSubjM: gcIndex keeps a referrer only for a subject that is a manifest (audit F-A);
+   fixEntry: a predecessor holds a node iff the node is one of its entries other than the
+   subject field, even if it also names it as subject (audit F-C). *)
 Record cfg := { fixF1 : bool; fixF3 : bool; fixF4 : bool; fixF13 : bool;
-                fixStale : bool; fixLeaf : bool; skipLinked : bool; fixHold : bool }.
+                fixStale : bool; fixLeaf : bool; skipLinked : bool; fixHold : bool;
+                fixSubjM : bool; fixEntry : bool }.
 Definition cfg_fixed : cfg := {| fixF1 := true; fixF3 := true; fixF4 := true; fixF13 := true;
-     fixStale := true; fixLeaf := true; skipLinked := false; fixHold := true |}.
+     fixStale := true; fixLeaf := true; skipLinked := false; fixHold := true;
+     fixSubjM := true; fixEntry := true |}.
 Definition cfg_orig : cfg := {| fixF1 := false; fixF3 := false; fixF4 := false; fixF13 := false;
-     fixStale := false; fixLeaf := false; skipLinked := false; fixHold := false |}.
+     fixStale := false; fixLeaf := false; skipLinked := false; fixHold := false;
+     fixSubjM := false; fixEntry := false |}.
 
 Inductive op :=
 | OPush (n : nat) | OTag (n t : nat) | OUntag (t : nat) | ODelete (n : nat)
-| OGC | OAuto (b : bool) | OStray (s : stray) | OReopen.
+| OGC | OAuto (b : bool) | OStray (s : stray) | OReopen | OForeign.
 
 Section Model.
 Variable succ : nat -> list nat.
@@ -168,7 +174,9 @@ Definition tag (c : cfg) (st : state) (n t : nat) : state * res :=
       end in
     ({| blobs := blobs st;
         idx := set_ref (RTag t) n (set_ref (RDig n) n (stale ++ idx st));
-        gnodes := gnodes st; strays := strays st; autogc := autogc st |}, Ok)
+        (* Store.Tag indexes a manifest before it is named in index.json (graph.Index) *)
+        gnodes := if manifest n then n :: removeb n (gnodes st) else gnodes st;
+        strays := strays st; autogc := autogc st |}, Ok)
   else (st, ENotFound).
 
 Definition untag (st : state) (t : nat) : state * res :=
@@ -183,18 +191,38 @@ Definition untag (st : state) (t : nat) : state * res :=
   end.
 
 (* ---------- Store.delete ---------- *)
+(* the reference map after delete(n): every reference to n goes; a manifest that loses its
+   last predecessor gets a by-digest reference unless it has one (it stays listed in
+   index.json until it is deleted itself) *)
+Definition del_idx (st : state) (n : nat) : list (ref * nat) :=
+  let ix := filter (fun e => negb (Nat.eqb (snd e) n)) (idx st) in
+  map (fun d => (RDig d, d))
+      (filter (fun d => manifest d && match lookup (RDig d) ix with None => true | Some _ => false end)
+              (danglings (gnodes st) n))
+  ++ ix.
+
 Definition delete_one (st : state) (n : nat) : state * list nat * res :=
   let dang := danglings (gnodes st) n in
   let st' := {| blobs := removeb n (blobs st);
-                idx := filter (fun e => negb (Nat.eqb (snd e) n)) (idx st);
+                idx := del_idx st n;
                 gnodes := removeb n (gnodes st);
                 strays := strays st; autogc := autogc st |} in
   (st', dang, if memb n (blobs st) then Ok else ENotFound).
 
-(* Store.heldBySurvivor: a predecessor that is not queued and links to r other than as its
-   subject *)
-Definition held (g seen : list nat) (r : nat) : bool :=
-  existsb (fun p => negb (memb p seen) && negb (has_subject r p)) (preds g r).
+(* the links of p other than its subject field: content.Successors minus one occurrence of
+   the subject (a node that is the subject AND an entry of p is still an entry) *)
+Fixpoint remove_one (x : nat) (l : list nat) : list nat :=
+  match l with
+  | [] => []
+  | y :: r => if Nat.eqb y x then r else y :: remove_one x r
+  end.
+Definition entries (p : nat) : list nat :=
+  match subject p with Some s => remove_one s (succ p) | None => succ p end.
+
+(* Store.heldBySurvivor: a predecessor that is not queued and lists r among its entries *)
+Definition held (en : bool) (g seen : list nat) (r : nat) : bool :=
+  existsb (fun p => negb (memb p seen) &&
+                    (if en then memb r (entries p) else negb (has_subject r p))) (preds g r).
 
 (* ---------- Store.Delete: the work queue ----------
    [seen] = everything ever queued (the repaired code queues a node once: F4);
@@ -226,8 +254,8 @@ Fixpoint delete_loop (c : cfg) (ord : nat -> list nat -> list nat) (fuel k : nat
         let seen1 := seen ++ fresh in
         let pend1 := if fixHold c then pending ++ ord k refs else [] in
         let cand := dedup (filter (fun r => negb (memb r seen1)) pend1) in
-        let ready := filter (fun r => negb (held (gnodes st') seen1 r)) cand in
-        let rest := filter (held (gnodes st') seen1) cand in
+        let ready := filter (fun r => negb (held (fixEntry c) (gnodes st') seen1 r)) cand in
+        let rest := filter (held (fixEntry c) (gnodes st') seen1) cand in
         delete_loop c ord fuel' (S k) st' (q ++ fresh ++ ready) (seen1 ++ ready) rest
       | (st', _, e) => (st', e)
       end
@@ -273,14 +301,14 @@ Definition candidates (ix : list (ref * nat)) : list nat :=
 
 (* the subject walk of the repaired code: follow manifestutil.Subject while the
    current manifest can be fetched; true when a subject is already in the new graph *)
-Fixpoint walk (bl g : list nat) (fuel cur : nat) : option bool :=
+Fixpoint walk (sm : bool) (bl g : list nat) (fuel cur : nat) : option bool :=
   match fuel with
   | O => None
   | S f =>
     if memb cur bl then
       match subject cur with
       | None => Some false
-      | Some s => if memb s g then Some true else walk bl g f s
+      | Some s => if memb s g && (negb sm || manifest s) then Some true else walk sm bl g f s
       end
     else Some false
   end.
@@ -298,7 +326,7 @@ Fixpoint walk_orig (bl g : list nat) (fuel cur : nat) : option bool :=
   end.
 
 Definition do_walk (c : cfg) (bl g : list nat) (n : nat) : option bool :=
-  if fixF1 c then walk bl g (S n) n else walk_orig bl g 64 n.
+  if fixF1 c then walk (fixSubjM c) bl g (S n) n else walk_orig bl g 64 n.
 
 (* accumulator of one pass: new graph, kept referrers, changed, hang *)
 Definition keep_step (c : cfg) (bl : list nat) (acc : list nat * list nat * bool * bool) (n : nat)
@@ -376,6 +404,16 @@ Definition step (c : cfg) (kl : bool) (st : state) (o : op) : state * res :=
      every index entry and runs IndexAll from it; AutoGC is the default again *)
   | OReopen =>
     let ix := filter (fun e => match fst e with RStale _ => false | _ => true end) (idx st) in
+    ({| blobs := blobs st; idx := ix;
+        gnodes := dedup (flat_map (clo c (blobs st)) (map snd ix));
+        strays := strays st; autogc := true |}, Ok)
+  (* the layout as other tools write it: index.json names only the tagged descriptors (no
+     by-digest entries for nested or untagged manifests); then oci.New: loadIndex gives every
+     entry its digest reference and its tag and indexes what the entries reach *)
+  | OForeign =>
+    let ix := flat_map (fun e => match fst e with
+                                 | RTag t => [(RDig (snd e), snd e); (RTag t, snd e)]
+                                 | _ => [] end) (idx st) in
     ({| blobs := blobs st; idx := ix;
         gnodes := dedup (flat_map (clo c (blobs st)) (map snd ix));
         strays := strays st; autogc := true |}, Ok)
